@@ -424,13 +424,26 @@ func runTagVariants(c *Ctx, base []shapeResult) {
 			continue
 		}
 		bases = append(bases, b)
-		for _, m := range []int{4, 5, 6} {
+		for _, m := range []int{4, 5, 6, 8, 9} {
 			items = append(items, corpusItem{key: fmt.Sprintf("%s + tags%d", b.item.key, m), src: b.item.shape.SourceDeco("s", m, -1), shape: b.item.shape})
 		}
 	}
 	res := cp.runAll(items, false)
 	for i, b := range bases {
-		noisy, untagged, spelled := res[3*i], res[3*i+1], res[3*i+2]
+		noisy, untagged, spelled := res[5*i], res[5*i+1], res[5*i+2]
+		for k, what := range []string{"all types in one grouped declaration, root first", "root struct declared before the structs it uses"} {
+			v := res[5*i+3+k]
+			r.count("TV-source/pairs", 1)
+			key := b.item.key + " " + what
+			switch {
+			case v.text == nil:
+				r.bad("TV-source", key, "", "parquetgen fails with "+what+": "+oneLine(v.genOut))
+			case !bytes.Equal(normHeader(v.text), normHeader(b.text)):
+				r.bad("TV-source", key, "", "with "+what+" the generated program differs from the one for separately declared types (columns "+programColumns(v.text)+", expected "+programColumns(b.text)+"): how the struct types are laid out in the source file changes the generated code")
+			default:
+				r.ok("TV-source", key, "", "same program")
+			}
+		}
 		r.count("TV-tags/pairs", 2)
 		key := b.item.key + " tag among other keys"
 		switch {
@@ -482,6 +495,8 @@ func checkC03(c *Ctx) {
 		// "a reader that knows only the Parquet specification" derives from the schema
 		laOrder(c2, "LA-order")
 		laMaxLevels(c2, "LA-maxlevels")
+		// what the shredder returned is what the column keeps (values, definition and repetition levels)
+		runFT(c2, "FT", map[string]bool{"delta": true})
 	})
 	r.assume("RepetitionTypes.MaxDef/MaxRep at run time and the RLE bytes (C07) are not decided here")
 }
@@ -517,14 +532,18 @@ func c14Items(cp *corpus, tier string, seed int64) (good []shapeResult, vars []c
 	for i := range good {
 		b := &good[i]
 		depth := b.item.shape.depth()
-		for _, mode := range []int{1, 2, 3} {
-			mn := map[int]string{1: "excluded-fields", 2: "embedded", 3: "multiname"}[mode]
+		for _, mode := range []int{1, 2, 3, 7} {
+			mn := map[int]string{1: "excluded-fields", 2: "embedded", 3: "multiname", 7: "excluded-embedded"}[mode]
 			levels := []int{-1}
 			for l := 0; l <= depth; l++ {
 				levels = append(levels, l)
 			}
 			if depth == 0 {
 				levels = []int{-1}
+			}
+			if mode == 7 {
+				// root struct only: nested structs are built with positional literals (D9, known), which any extra field breaks
+				levels = []int{0}
 			}
 			for _, l := range levels {
 				name := fmt.Sprintf("%s@all", mn)
